@@ -459,6 +459,14 @@ def main(pid="C14"):
         for _ in range(3000 if thorough else 500):
             cases.append({"L": rnd.choice(lslots), "M": {"k": "link", "to": "M"}, "path": rnd.choice(lpaths), "size": rnd.choice(["ok", "ok", "zero"]),
                           "token": "notneeded", "mime": "nolist", "deleteOn": True, "fault": "none"})
+        # longer paths than the enumerated pairs (3-5 segments, with or without the looping link): an instance can be too small
+        # to contain the shape that matters; every case is judged by the observation specification
+        for _ in range(4000 if thorough else 600):
+            withm = rnd.random() < 0.3
+            segs_ = SEGS + (["M"] if withm else [])
+            cases.append({"L": rnd.choice(lslots if withm else slots), "M": {"k": "link", "to": "M"} if withm else {"k": "absent", "to": "-"},
+                          "path": [rnd.choice(segs_) for _ in range(rnd.randint(3, 5))], "size": rnd.choice(["ok", "ok", "zero"]),
+                          "token": rnd.choice(["notneeded", "right"]), "mime": rnd.choice(["nolist", "allowed"]), "deleteOn": True, "fault": "none"})
         out = []
         for c in cases:
             st, before, after, content = run_case(tree, c, rnd)
